@@ -336,7 +336,7 @@ static void send_shutdown_response(const struct peer *p,
 	}
 }
 
-static void clear_routing_entry(struct value_route_table *val)
+static void clear_routing_entry(struct value_route_table *val, const struct peer *leaving_peer)
 {
 	struct routing_request *request = val->vals[0];
 
@@ -345,7 +345,10 @@ static void clear_routing_entry(struct value_route_table *val)
 	}
 	cjet_timer_destroy(&request->timer);
 
-	send_shutdown_response(request->requesting_peer, request->origin_request_id);
+	if (request->requesting_peer != leaving_peer) {
+		/* Nothing can be sent to the peer that is being torn down, its connection might already be gone. */
+		send_shutdown_response(request->requesting_peer, request->origin_request_id);
+	}
 	cJSON_Delete(request->origin_request_id);
 	cjet_free(request);
 }
@@ -365,7 +368,7 @@ void remove_peer_from_routing_table(const struct peer *p,
 			struct value_route_table val;
 			int ret = HASHTABLE_REMOVE(route_table, p->routing_table, entry->key, &val);
 			if (ret == HASHTABLE_SUCCESS) {
-				clear_routing_entry(&val);
+				clear_routing_entry(&val, peer_to_remove);
 			}
 		}
 	}
@@ -381,7 +384,7 @@ void remove_routing_info_from_peer(const struct peer *p)
 			int ret = HASHTABLE_REMOVE(route_table,
 			                           p->routing_table, entry->key, &val);
 			if (ret == HASHTABLE_SUCCESS) {
-				clear_routing_entry(&val);
+				clear_routing_entry(&val, p);
 			}
 		}
 	}
